@@ -98,6 +98,10 @@ SUBMODEL_ELEMENTS = DATA_ELEMENTS + ["SubmodelElementCollection", "SubmodelEleme
                                      "AnnotatedRelationshipElement", "Operation", "Capability", "Entity",
                                      "BasicEventElement"]
 IDENTIFIABLES = ["AssetAdministrationShell", "Submodel", "ConceptDescription"]
+# the abstract members of AasSubmodelElements a SubmodelElementList may be typed by, with their concrete subclasses
+ABSTRACT_SUBCLASSES = {"SubmodelElement": SUBMODEL_ELEMENTS, "DataElement": DATA_ELEMENTS,
+                       "EventElement": ["BasicEventElement"]}
+ABSTRACT_LIST_TYPES = list(ABSTRACT_SUBCLASSES)
 
 
 def cls_of(name):
@@ -135,8 +139,15 @@ STR_XML = [" leading", "trailing ", "  ", " ", "a\nb", "a\r\nb", "a\rb", "\ttab\
 
 
 class Gen:
-    def __init__(self, rng, depth=3, strings="plain", xsd_edge=True, avoid=(), p_opt=0.5):
+    def __init__(self, rng, depth=3, strings="plain", xsd_edge=True, avoid=(), p_opt=0.5, wide_lists=False):
+        """wide_lists: SubmodelElementLists over everything the metamodel and the SDK's constraint checks admit, not only
+        the shape of the example stores: lists typed by an abstract class (SubmodelElement / DataElement / EventElement)
+        with children of mixed concrete classes, valueTypeListElement on lists of any element type (AASd-109 makes it
+        mandatory for Property / Range lists and leaves it optional elsewhere), children that omit the semantic id
+        their list announces (AASd-107/115) and lists without semanticIdListElement whose children partly share one
+        semantic id (AASd-114).  Off by default: the random stream of the other users of this generator is unchanged."""
         self.rng, self.depth, self.strings, self.xsd_edge = rng, depth, strings, xsd_edge
+        self.wide_lists = wide_lists
         self.avoid = set(avoid)
         self.p_opt = p_opt
         self.counter = 0
@@ -585,13 +596,25 @@ class Gen:
             kinds = [k for k in kinds if k in DATA_ELEMENTS + ["Capability", "RelationshipElement", "BasicEventElement"]] \
                 or kinds
         if in_list:
-            kinds = [in_list["type"].__name__]
+            kinds = list(in_list.get("kinds") or [in_list["type"].__name__])
+            if len(kinds) > 1 and depth <= 0:
+                kinds = [k for k in kinds if k in DATA_ELEMENTS + ["Capability"]] or kinds
         k = r.choice(kinds)
         self.feat(k)
         kw = {}
         self.referable_kw(kw, in_list=bool(in_list))
         if in_list and in_list.get("semantic_id") is not None:
-            kw["semantic_id"] = in_list["semantic_id"]
+            # wide lists: a child may leave out the semantic id (AASd-115 "assumes" it, the attribute itself stays absent)
+            if not self.wide_lists or r.random() < 0.5:
+                kw["semantic_id"] = in_list["semantic_id"]
+            else:
+                self.feat("list-child:semantic-id-absent-under-list-semantic-id")
+        elif in_list and in_list.get("shared_semantic_id") is not None and r.random() < 0.5:
+            # no semanticIdListElement: the children that have a semantic id have the same one (AASd-114)
+            kw["semantic_id"] = in_list["shared_semantic_id"]
+            self.feat("list-child:semantic-id-without-list-semantic-id")
+        if in_list and self.wide_lists and "semantic_id" in kw and r.random() < 0.3:
+            kw["supplemental_semantic_id"] = [self.ref() for _ in range(r.randint(1, 2))]
         ids = None if in_list else self.id_short()
         if k == "Property":
             t = in_list["value_type"] if in_list and in_list.get("value_type") else self.xsd_type()
@@ -630,15 +653,25 @@ class Gen:
             kw["value"] = [self.submodel_element(depth - 1) for _ in range(r.randint(0, 3))]
             return model.SubmodelElementCollection(ids, **kw)
         if k == "SubmodelElementList":
-            ek = r.choice([x for x in SUBMODEL_ELEMENTS if depth > 1 or x in DATA_ELEMENTS + ["Capability"]])
+            ek = r.choice([x for x in SUBMODEL_ELEMENTS + (ABSTRACT_LIST_TYPES if self.wide_lists else [])
+                           if depth > 1 or x in DATA_ELEMENTS + ["Capability", "DataElement"]])
             ecls = cls_of(ek)
             cons = {"type": ecls}
+            if ek in ABSTRACT_SUBCLASSES:
+                cons["kinds"] = ABSTRACT_SUBCLASSES[ek]
+                self.feat("list:typed-by-abstract-class")
             if ek in ("Property", "Range"):
                 cons["value_type"] = self.xsd_type()
                 kw["value_type_list_element"] = cons["value_type"]
+            elif self.wide_lists and self.opt():
+                # optional (0..1) for every other element type; says nothing about the children the SDK would check
+                kw["value_type_list_element"] = self.xsd_type()
+                self.feat("list:value-type-on-non-property-range-list")
             if self.opt():
                 cons["semantic_id"] = self.ref()
                 kw["semantic_id_list_element"] = cons["semantic_id"]
+            elif self.wide_lists and self.opt():
+                cons["shared_semantic_id"] = self.ref()
             kw["order_relevant"] = r.choice([True, False])
             kw["value"] = [self.submodel_element(depth - 1, in_list=cons) for _ in range(r.randint(0, 3))]
             return model.SubmodelElementList(ids, ecls, **kw)
